@@ -23,7 +23,9 @@ fn run(case: &str) -> String {
         Ok(s) => s,
         Err(_) => return "nostream".to_string(),
     };
-    let mut avail = 0usize;
+    // collect mode one_pass_streams: the stream is created after `drained` messages were parsed and dropped
+    let drained: usize = f.get(4).and_then(|x| x.strip_prefix('d')).and_then(|x| x.parse().ok()).unwrap_or(0).min(all.len());
+    let mut avail = drained;
     let mut obs = vec![];
     for ev in parts[2].split(';').filter(|x| !x.is_empty()) {
         let (k, v) = ev.split_at(1);
@@ -31,7 +33,7 @@ fn run(case: &str) -> String {
             "a" => avail = (avail + v.parse::<usize>().unwrap_or(0)).min(all.len()),
             "t" => {
                 // as process_file_context calls it
-                let last = std::cmp::min(stream.all_msgs_last_processed_len, avail);
+                let last = std::cmp::max(std::cmp::min(stream.all_msgs_last_processed_len, avail), drained);
                 process_stream_new_msgs(&mut stream, last, &all[last..avail], v.parse::<usize>().unwrap_or(0));
                 obs.push(format!("{}:{}", stream.filtered_msgs.len(), stream.all_msgs_last_processed_len));
             }
@@ -143,7 +145,9 @@ fn gen(rng: &mut Rng, tier: u32) -> String {
             evs.push("t3000000".to_string());
         }
     }
-    format!("{} | {} {} {} {} | {}", msgs, kind, fs, start, stop, evs.join(";"))
+    // one in five: the stream is created late in collect mode one_pass_streams
+    let late = if rng.chance(5) { format!(" d{}", 1 + rng.below(total as u64)) } else { String::new() };
+    format!("{} | {} {} {} {}{} | {}", msgs, kind, fs, start, stop, late, evs.join(";"))
 }
 
 impl Area for Rsn {
